@@ -2,15 +2,28 @@
 (***************************************************************************)
 (* Bounded model check of the session model (C10) and generation of call   *)
 (* histories for replay into the real `ForSys` object.                      *)
-(*   MC_Session*.cfg        exhaustive BFS to depth MaxDepth (calls):       *)
-(*                          AlignedX, KeyedStoresX, PureResultsX            *)
-(*   MC_Session_cover.cfg   + prints the (shortest) history of every        *)
-(*                          distinct state: a state cover for replay        *)
-(*   MC_Session_sim.cfg     random walks (-simulate), prints each walk of   *)
-(*                          WalkLen calls                                   *)
-(*   MC_Session_guard_*.cfg vacuity guards: the KF matchers are reachable   *)
-(*                          (EXPECTED violation; prints the counterexample  *)
-(*                          history, which is replayed into the real code)  *)
+(*   MC_Session.cfg / _nf1 / _thorough / _thorough_nf1 / _thorough_nf3        *)
+(*                          exhaustive BFS over NF frames to MaxDepth calls: *)
+(*                          AlignedX, KeyedStoresX, PureResultsX. Run with   *)
+(*                          -workers 1: with several workers the level at    *)
+(*                          which a state is first reached (hence the set    *)
+(*                          of states within the bound) is not deterministic *)
+(*   MC_Session_cover*.cfg  + prints the history of every generated state:   *)
+(*                          all transitions leaving the states of depth      *)
+(*                          <= MaxDepth (a transition cover for replay)      *)
+(*   MC_Session_sim.cfg     random walks (-simulate, SimSpec: weighted draw  *)
+(*                          of the next enabled call), prints each walk of   *)
+(*                          WalkLen calls; the invariants are checked on     *)
+(*                          every state of every walk                        *)
+(*   MC_Session_guard_*.cfg vacuity guards: the KF matchers are reachable    *)
+(*                          and the raw properties fail (EXPECTED violation; *)
+(*                          prints the counterexample history, which is      *)
+(*                          replayed into the real code)                     *)
+(* The instance (env C10_SERIES) is the real series reduced to one          *)
+(* representative per class of interfaces the model cannot tell apart       *)
+(* (harness/props/c10.py: quotient; isomorphic state graph, same counts).   *)
+(* TLC evaluates invariants on every generated successor before applying    *)
+(* the CONSTRAINT, so they are also checked one call beyond MaxDepth.       *)
 (* `hist` (the calls so far, with parameters) is hidden from the state      *)
 (* space by VIEW; depth is bounded by a CONSTRAINT on TLCGet("level").      *)
 (***************************************************************************)
